@@ -511,7 +511,7 @@ func init() {
 
 func init() {
 	register(&Rule{
-		Name: "pseudo-headers-once", Props: []string{"C20", "C01"}, Engine: "AST", Floor: 10,
+		Name: "pseudo-headers-once", Props: []string{"C20", "C01"}, Engine: "AST", Floor: 11,
 		Doc: "a request's pseudo-header fields: each of :method, :path, :scheme and :authority is accepted at most once per request (its seen-mark is tested, rejecting with a PROTOCOL_ERROR stream error through rejectBlock, before it is set) and reaches the fasthttp request where the handler looks for it (method, request URI, scheme, Host both as the request's host and as a header field); any other pseudo-header is rejected the same way (RFC 7540 8.1.2.1, 8.1.2.3)",
 		Run: func(p *Prog, r *Out) {
 			fd := p.decl("(*serverConn).handleHeaderFrame")
@@ -617,6 +617,18 @@ func init() {
 				})
 				r.check(okS, ":scheme reaches the request URI when the block is complete", p.pos(hf.Pos()), "under END_HEADERS, after validateRequestPseudoHeaders: Request.URI().SetSchemeBytes(strm.scheme)", "the scheme the client sent no longer reaches the request's URI once the header block is complete: the handler sees fasthttp's default scheme whatever :scheme said")
 			}
+			// trailers carry no pseudo-header at all: the mark a regular field leaves is set when a trailer block starts
+			okTr := false
+			for _, st := range fd.Body.List {
+				ifs, ok := st.(*ast.IfStmt)
+				if !ok || !p.isConjunctionOf(ifs.Cond, "strm.headersFinished", "fr.Type()==FrameHeaders") {
+					continue
+				}
+				if hasStmt(p, ifs.Body.List, "strm.regularSeen=true") {
+					okTr = true
+				}
+			}
+			r.check(okTr, "a pseudo-header in the trailers is turned away whatever the header block held", p.pos(fd.Pos()), "at the start of a trailer block: strm.regularSeen = true", "a trailer block no longer starts with the mark set that turns pseudo-header fields away: after a header block of pseudo-headers only, an :authority in the trailers goes into the request as its host and the handler runs on it")
 			r.check(defReject, "any other pseudo-header is rejected", p.pos(fd.Pos()), "default: reject (stream error PROTOCOL_ERROR)", "a pseudo-header that is not one of the four request pseudo-headers (:status, say) is no longer a stream error")
 		},
 	})
@@ -796,6 +808,22 @@ func init() {
 					r.check(okK && k == 1<<31-1, fn+" cuts "+l+" to 31 bits", p.pos(as.Pos()), "& (1<<31 - 1)", fn+" stores "+l+" through a mask other than 2^31-1: the reserved bit is taken for part of the value, or part of the value is thrown away")
 					return true
 				})
+			}
+			// ... and the 32-bit ones are not cut at all: an error code has no reserved bit
+			for _, fn := range []string{"(*GoAway).SetCode", "(*RstStream).SetCode"} {
+				fd := p.decl(fn)
+				if fd == nil {
+					continue
+				}
+				r.fn(fn)
+				masked := false
+				ast.Inspect(fd.Body, func(n ast.Node) bool {
+					if be, ok := n.(*ast.BinaryExpr); ok && be.Op == token.AND {
+						masked = true
+					}
+					return true
+				})
+				r.check(!masked, fn+" keeps all 32 bits of the error code", p.pos(fd.Pos()), "code stored as given", fn+" cuts the error code with a mask: a code has no reserved bit (RFC 7540 s6.4, s6.8), the parser keeps all 32, and a code read from one frame and set on another changes on the way")
 			}
 			if nMask < 6 {
 				r.bad("31-bit masks", "?", fmt.Sprintf("only %d stores of a stream identifier or increment through a mask were found", nMask))
